@@ -45,6 +45,12 @@ from pynguin.testcase.export import TestSuiteWriter
 from pynguin.testcase.literalgen import literal_to_cst
 from pynguin.utils.generic.genericaccessibleobject import GenericConstructor, GenericFunction, GenericMethod
 
+import pynguin.testcase.export as _export
+
+# The exporter re-executes every statement in a watchdog thread with a 5 s wall-clock limit; on a loaded machine
+# the limit (not the logic) would make a run non-reproducible, so it is lifted.  No corpus statement loops.
+_export._STATEMENT_EXECUTION_TIMEOUT = 300.0  # noqa: SLF001
+
 MODULE = "corpus.C24_sut"
 ALIAS = "C24_sut_"
 ROOT = os.path.dirname(os.path.dirname(os.path.abspath(__file__)))
@@ -470,6 +476,7 @@ KINDS = (
     ("module_const", "", "{A}.LIMIT", None, "int"),
     ("enum_member", "", "{A}.Color.GREEN", None, "Color"),
     ("lambda_var", "h", "{A}.echo(value = {h})", "echo", None),
+    ("nested", "", "{A}.inner()", "inner", None),
 )
 N_KINDS = len(KINDS)
 
@@ -512,11 +519,12 @@ def build_kinds(ks, tail: int):
             produce(letter)
         own = fresh()
         statements.append(call_statement(own, template.format(**env), acc, _btype(btype)))
-    if tail == 2:
+    other = None
+    if tail >= 2:
         other = fresh()
         statements.append(call_statement(other, f"{ALIAS}.make()", "make", world().module.Box))
     if tail >= 1:
-        statements.append(call_statement(None, f"{ALIAS}.echo(value = {own})", "echo", None))
+        statements.append(call_statement(None, f"{ALIAS}.echo(value = {other if tail == 3 else own})", "echo", None))
     return statements
 
 
@@ -661,10 +669,12 @@ def _assertion_table():
         (make, "make", None, lambda _s: ass.ObjectAssertion(f"{ALIAS}.LIMIT", 3)),
         (make, "make", None, lambda _s: ass.ObjectAssertion(f"{ALIAS}.Box.kind", "box")),
         (make, "make", None, lambda _s: ass.ObjectAssertion(f"{ALIAS}.Color.RED", color.RED)),
+        (f"{ALIAS}.inner()", "inner", "", _a(ass.IsInstanceAssertion, MODULE, "Outer.Inner")),
+        (f"{ALIAS}.inner()", "inner", ".depth", _a(ass.ObjectAssertion, 2)),                 # 35
     )
 
 
-N_ASSERTIONS = 34
+N_ASSERTIONS = 36
 
 
 def run_assertion(a: int, pos: int, black: bool, level: int) -> bool:
